@@ -80,7 +80,14 @@ func intBits(b *types.Basic) (bits int, signed bool, ok bool) {
 }
 
 // isBVType reports whether t is modelled as a bit-vector.
+// uintAsInt switches uint/uint64 to mathematical integers with explicit
+// wrap-around (per function, for code that does arithmetic rather than bit tricks).
+var uintAsInt bool
+
 func isBVType(t types.Type) bool {
+	if uintAsInt {
+		return false
+	}
 	b, ok := t.Underlying().(*types.Basic)
 	if !ok {
 		return false
@@ -107,7 +114,7 @@ func (ti *TypeInfo) SortOf(t types.Type) Sort {
 			return SF64
 		case u.Info()&types.IsInteger != 0:
 			bits, signed, _ := intBits(u)
-			if !signed && bits >= 32 {
+			if !signed && bits >= 32 && !uintAsInt {
 				if bits == 32 {
 					return SBV32
 				}
